@@ -990,22 +990,39 @@ Hypothesis pop_ok : admissible pop_min.
 Variable mk : nat.       (* longest key of any input stream *)
 
 Definition slot_le (s : slot) : Prop := (length (input s) <= mk)%nat.
-Definition stream_le (t : list kv) : Prop := Forall (fun e => (length (fst e) <= mk)%nat) t.
-Definition keys_le (u : sheap) : Prop := Forall slot_le (heap u) /\ Forall stream_le (rdrs u).
+(* every key an input stream yields - also when it is polled again after its None - is at most mk long *)
+Definition kv_le (e : kv) : Prop := (length (fst e) <= mk)%nat.
+Definition stream_le (x : instream) : Prop :=
+  Forall kv_le (s_items x) /\ forall n e, s_after x n = Some e -> kv_le e.
+Definition reader_le (r : reader) : Prop :=
+  Forall kv_le (live_of (r_state r)) /\ forall n e, r_after r n = Some e -> kv_le e.
+Definition keys_le (u : sheap) : Prop := Forall slot_le (heap u) /\ Forall reader_le (rdrs u).
+Lemma open_le x : stream_le x -> reader_le (open x).
+Proof. intros H. exact H. Qed.
+Lemma poll_le r : reader_le r -> reader_le (snd (poll r)) /\ (forall e, fst (poll r) = Some e -> kv_le e).
+Proof.
+  intros [H1 H2]. unfold poll. destruct (r_state r) as [[|e l]|n] eqn:E; cbn [fst snd live_of] in *.
+  - split; [split; [constructor|exact H2]|discriminate].
+  - inversion H1; subst. split; [split; assumption|]. intros e0 He; inversion He; subst; assumption.
+  - split; [split; [constructor|exact H2]|]. intros e He. eapply H2; eauto.
+Qed.
 
 Lemma refill_spec u s u' : refill u s = Ok u' ->
   (length (heap u') <= S (length (heap u)))%nat /\ length (rdrs u') = length (rdrs u) /\
   (keys_le u -> keys_le u').
 Proof.
-  unfold refill. destruct (nth_error (rdrs u) (idx s)) as [[|[k v] r]|] eqn:E; intros H; inversion H; subst.
-  - split; [lia|split; auto].
-  - cbn [heap rdrs length]. split; [lia|split; [apply set_nth_length|]].
-    intros [H1 H2]. assert (Ht : stream_le ((k, v) :: r)).
-    { rewrite Forall_forall in H2. apply H2. eapply nth_error_In; eauto. }
-    inversion Ht; subst. split; cbn [heap rdrs].
-    + constructor; [assumption|assumption].
-    + apply Forall_forall. intros y Hy. apply in_set_nth_1 in Hy as [->|Hy]; [assumption|].
-      rewrite Forall_forall in H2. now apply H2.
+  unfold refill. destruct (nth_error (rdrs u) (idx s)) as [r|] eqn:E; [|discriminate].
+  destruct (poll r) as [a r'] eqn:Ep.
+  assert (Hrs : keys_le u -> Forall reader_le (set_nth (rdrs u) (idx s) r') /\ (forall e, a = Some e -> kv_le e)).
+  { intros [H1 H2]. assert (Ht : reader_le r) by (rewrite Forall_forall in H2; apply H2; eapply nth_error_In; eauto).
+    destruct (poll_le r Ht) as [P1 P2]. rewrite Ep in P1, P2. cbn [fst snd] in P1, P2. split; [|exact P2].
+    apply Forall_forall. intros y Hy. apply in_set_nth_1 in Hy as [->|Hy]; [assumption|].
+    rewrite Forall_forall in H2. now apply H2. }
+  destruct a as [[k v]|]; intros H; inversion H; subst; cbn [heap rdrs length].
+  - split; [lia|split; [apply set_nth_length|]]. intros Hk. destruct (Hrs Hk) as [R1 R2]. destruct Hk as [H1 H2].
+    split; cbn [heap rdrs]; [|exact R1]. constructor; [|assumption]. exact (R2 (k, v) eq_refl).
+  - split; [lia|split; [apply set_nth_length|]]. intros Hk. destruct (Hrs Hk) as [R1 _]. destruct Hk as [H1 H2].
+    split; cbn [heap rdrs]; assumption.
 Qed.
 
 Lemma sh_pop_spec u s u1 : sh_pop pop_min u = Some (s, u1) ->
@@ -1073,7 +1090,9 @@ Lemma sh_new_spec ss u : sh_new ss = Ok u -> Forall stream_le ss ->
   (length (heap u) <= length ss)%nat /\ length (rdrs u) = length ss /\ keys_le u.
 Proof.
   unfold sh_new. intros H Hs. destruct (refill_all_spec _ _ _ _ H) as (A1 & A2 & A3). cbn [heap rdrs length] in *.
-  split; [lia|split; [assumption|]]. apply A3. split; [constructor|exact Hs].
+  rewrite map_length in A2.
+  split; [lia|split; [assumption|]]. apply A3. split; [constructor|]. cbn [rdrs]. rewrite Forall_map.
+  eapply Forall_impl; [|exact Hs]. apply open_le.
 Qed.
 
 (* ---- union / intersection / symmetric difference over k streams ---- *)
@@ -1144,7 +1163,7 @@ Proof.
   unfold op_inv. cbn [o_heap o_cur o_outs cur_slots length]. split5; auto; lia.
 Qed.
 
-Inductive opreach (ss : list (list kv)) : opstate -> Prop :=
+Inductive opreach (ss : list instream) : opstate -> Prop :=
 | or_new st : op_new ss = Ok st -> opreach ss st
 | or_union st it st' : opreach ss st -> union_next pop_min st = Some (Ok (it, st')) -> opreach ss st'
 | or_sel op st it st' : opreach ss st -> sel_next pop_min op st = Some (Ok (it, st')) -> opreach ss st'.
@@ -1173,15 +1192,17 @@ Qed.
 (* ---- difference: the heap is over the k - 1 other streams ---- *)
 Definition diff_inv (st : dstate) : Prop :=
   (S (length (heap (d_heap st))) <= k)%nat /\ (length (d_outs st) <= 1)%nat /\
-  (length (d_key st) <= mk)%nat /\ keys_le (d_heap st) /\ stream_le (d_set st).
+  (length (d_key st) <= mk)%nat /\ keys_le (d_heap st) /\ reader_le (d_set st).
 
 Lemma diff_loop_inv n : forall st it st', diff_inv st -> diff_loop pop_min n st = Some (Ok (it, st')) -> diff_inv st'.
 Proof.
   induction n as [|n IH]; intros st it st' Hi H; cbn [diff_loop] in H; [discriminate|].
   pose proof Hi as (I1 & I2 & I3 & I4 & I5).
-  destruct (d_set st) as [|[k0 v] r] eqn:Es; [inversion H; subst; exact Hi|].
+  destruct (poll_le _ I5) as [P1 P2].
+  destruct (poll (d_set st)) as [[[k0 v]|] r] eqn:Es; cbn [fst snd] in P1, P2.
+  2:{ inversion H; subst. unfold diff_inv. cbn [d_heap d_outs d_key d_set]. split5; auto. }
   destruct (drain_le _ _ _ _ _) as [[[u2 unique]| |]|] eqn:Ed; cbn [fbind] in H; try discriminate.
-  destruct (drain_le_spec _ _ _ _ _ _ Ed) as (D1 & D2 & D3). inversion I5; subst.
+  destruct (drain_le_spec _ _ _ _ _ _ Ed) as (D1 & D2 & D3). pose proof (P2 (k0, v) eq_refl) as Hk0. unfold kv_le in Hk0. cbn [fst] in Hk0.
   assert (Hn : diff_inv (mkd r k0 u2 [(O, v)])).
   { unfold diff_inv. cbn [d_heap d_outs d_key d_set length]. split5; auto; lia. }
   destruct unique; [inversion H; subst; exact Hn|eapply IH; eauto].
@@ -1201,7 +1222,7 @@ Proof.
   unfold diff_inv. cbn [d_heap d_outs d_key d_set length] in *. split5; auto; lia.
 Qed.
 
-Inductive dreach (ss : list (list kv)) : dstate -> Prop :=
+Inductive dreach (ss : list instream) : dstate -> Prop :=
 | dr_new st : diff_new ss = Ok st -> dreach ss st
 | dr_next st it st' : dreach ss st -> diff_next pop_min st = Some (Ok (it, st')) -> dreach ss st'.
 
